@@ -30,17 +30,26 @@ Definition is_finite (f : float) : bool :=
   | _ => false
   end.
 
-(* the exact value, in lowest terms (so that equal values are equal terms) *)
-Definition f2q (f : float) : Q :=
+(* The exact value of a float over the denominator 2^(-E), for E <= min(0, its exponent).  A whole
+   column is converted over ONE denominator (qcol), so that exact sums need no gcd and equal
+   values are equal terms. *)
+Definition fexp (f : float) : Z :=
+  match Prim2SF f with S754_finite _ _ e => e | _ => 0 end.
+
+Definition den_of (E : Z) : positive := if E <? 0 then Pos.pow 2 (Z.to_pos (- E)) else 1%positive.
+
+Definition f2q_at (E : Z) (f : float) : Q :=
   match Prim2SF f with
-  | S754_finite s m e =>
-      let num := if s then Z.neg m else Z.pos m in
-      if 0 <=? e then Qred (inject_Z (num * 2 ^ e))
-      else Qred (Qmake num (Pos.pow 2 (Z.to_pos (- e))))
-  | _ => 0%Q
+  | S754_finite s m e => Qmake ((if s then Z.neg m else Z.pos m) * 2 ^ (e - E)) (den_of E)
+  | _ => Qmake 0 (den_of E)
   end.
 
-Definition vals (v : list float) (ks : list Z) : list Q := map (fun k => f2q (fget v k)) ks.
+Definition f2q (f : float) : Q := f2q_at (Z.min 0 (fexp f)) f.
+
+Definition emin (v : list float) : Z := fold_right (fun f a => Z.min (fexp f) a) 0 v.
+Definition qcol (v : list float) : list Q := let E := emin v in map (f2q_at E) v.
+
+Definition vals (qc : list Q) (ks : list Z) : list Q := map (fun k => nth (Z.to_nat k) qc 0%Q) ks.
 
 (* ------------------------------------------------------------------ targets *)
 Definition eps9 : Q := (1 # 1000000000)%Q.
@@ -154,7 +163,13 @@ Definition whist_tgt (patched : bool) (x w : list Q) : tgt :=
 (* the data columns of a Binner *)
 Record cols := mkCols { c_x : list float; c_y : option (list float); c_w : option (list float) }.
 
-Definition ovals (o : option (list float)) (ks : list Z) : option (list Q) :=
+(* ... converted once *)
+Record qcols := mkQ { q_x : list Q; q_y : option (list Q); q_w : option (list Q) }.
+Definition ocol (o : option (list float)) : option (list Q) :=
+  match o with Some v => Some (qcol v) | None => None end.
+Definition qcols_of (c : cols) : qcols := mkQ (qcol (c_x c)) (ocol (c_y c)) (ocol (c_w c)).
+
+Definition ovals (o : option (list Q)) (ks : list Z) : option (list Q) :=
   match o with Some v => Some (vals v ks) | None => None end.
 
 (* one row: x-block, y-block, whist, weighted x-block, weighted y-block — the keys
@@ -177,15 +192,16 @@ Definition row_of (patched : bool) (xs : list Q) (ys ws : option (list Q)) : lis
           end)
   end.
 
-Definition row_at (patched : bool) (c : cols) (ks : list Z) : list tgt :=
-  row_of patched (vals (c_x c) ks) (ovals (c_y c) ks) (ovals (c_w c) ks).
+Definition row_at (patched : bool) (qc : qcols) (ks : list Z) : list tgt :=
+  row_of patched (vals (q_x qc) ks) (ovals (q_y qc) ks) (ovals (q_w qc) ks).
 
 (* for i in range(nhist): if rev[i] != rev[i+1]: w = rev[rev[i]:rev[i+1]] ... *)
 Definition bin_slice (rev : list Z) (i : Z) : list Z :=
   if zget rev i =? zget rev (i + 1) then [] else slice rev i.
 
 Definition calc_rows (patched : bool) (c : cols) (nhist : Z) (rev : list Z) : list (list tgt) :=
-  map (fun i => row_at patched c (bin_slice rev i)) (zseq 0 (Z.to_nat nhist)).
+  let qc := qcols_of c in
+  map (fun i => row_at patched qc (bin_slice rev i)) (zseq 0 (Z.to_nat nhist)).
 
 (* ------------------------------------------------------------------ edges (util.py:358-366) *)
 (* low = dmin + arange(nhist) * binsize; high = low + binsize; center = low + 0.5 * binsize *)
